@@ -119,7 +119,7 @@ package preference_reversal
 
 //@ func (*PreferenceReversal).Apply
 //@   refines model.Bias.Apply
-//@   property C16 C09 C07
+//@   property C16 C09 C07 C01
 //@   requires model.distinctCriteria(current.Criteria) && model.validParams(*listener, current.MethodParameters) && model.coversAll(*listener, current.MethodParameters, current.Criteria)
 //@   requires distinctAll(current.ConsideredAlternatives, current.NotConsideredAlternatives)
 //@   ensures [untouched] result.DMP.Criteria == current.Criteria && result.DMP.MethodParameters == current.MethodParameters
